@@ -2014,6 +2014,15 @@ class Transport(threading.Thread, ClosingContextManager):
         key = self._key_info[self.host_key_type](Message(host_key))
         if key is None:
             raise SSHException("Unknown host key type")
+        # The signature must be made with the algorithm that was negotiated
+        # (certificate algorithms sign with their base algorithm), not with
+        # whatever algorithm the signature blob claims for itself.
+        expected = self.host_key_type.replace("-cert-v01@openssh.com", "")
+        if Message(sig).get_string() != b(expected):
+            raise SSHException(
+                "Host key signature does not use the negotiated algorithm "
+                "({})".format(expected)
+            )
         if not key.verify_ssh_sig(self.H, Message(sig)):
             raise SSHException(
                 "Signature verification ({}) failed.".format(
